@@ -20,7 +20,7 @@ def main(tier, seed):
     run.notes["runs_ending_in_a_located_error"] = stats.get("err", 0)
     run.notes["located_compile_errors"] = stats.get("cerr", 0)
     if stats.get("err", 0) < 20:
-        raise ToolError("too few error runs to say anything about locations")
+        run.thin_corpus("too few error runs to say anything about locations")
     run.sample(dict(record=dict((k, v) for k, v in json.loads(open(files[0]).readline()).items() if k in ("id", "obs"))))
     run.assumptions += ["an error-provoking card of each fallible kind is planted at random statement positions (inside loops, branches, closures, callees) and "
                         "in non-last operand positions; the reference machine carries the current card index and the active call cards",
